@@ -225,7 +225,8 @@ enumerated; this section only records where the build differs from the design.
   may call what; a refused call changes nothing) and C18 (tables equal the edits applied in order) - a deviation is
   reported by the check of the property it belongs to.
 * **C10** (late) disk-mode behaviours run beside a neighbour stream in the same directory whose path differs only in where
-  '/' and '_' are (seed C10-5); a free-running leg compares the playlists served while eight pollers are in flight with a
+  '/' and '_' are (seed C10-5) or which has the very same path - a replaced stream that is still open: a genuine defect,
+  both generators used the same file names, repaired in 19d70b3 and also shown on the server (`TestHlsReplaced`); a free-running leg compares the playlists served while eight pollers are in flight with a
   reference run without them (seed C10-4).
 * **C20** as designed plus per-step nonces, keep-alive leg, bare-URL route, concurrent first requests.
 '''
@@ -280,8 +281,7 @@ counterexample that did not reproduce) - never a verdict.
 ## 12. Limits and what is not covered
 
 * Multicast datagrams cannot be received in the sandbox; for multicast players the checks observe the proxy's consumer
-  registration and the players' RTSP connections (two genuine defects found that way). Stream replacement
-  while a disk-mode HLS stream of the same path still owns files with the same names (C10).
+  registration and the players' RTSP connections (two genuine defects found that way).
 * Freshness of the HLS window is a verdict in disk mode and at quiescence over HTTP only; in memory mode it is
   covered by model drift.
 * C10-1 (a lock narrowed around the segment lookup) is caught by real HTTP concurrency, i.e. probabilistically; a
